@@ -39,6 +39,11 @@ CHECKS = {
     text="TLC explores every token path of the reader machine up to 6 (quick) / 7 (thorough) symbols over comment, blank, 22 problem-line variants, integers -3..3 and a word (n <= 2) with invariants Accept => out = Denotation(whole text) and counts match and literals in range, NoDenotation => rejected, and the round trip Read(Write(F)) = F for all formulas with <= 2 variables and <= 3 clauses of width <= 2 under the four header/varnames options (including what line breaks in header fields and names expose). Every path of depth 5/6 is rendered into 3 concrete texts and read by the real CNF.from_file (outcome in TLC's allowed set, result = TLC's denotation). Hundreds of formulas x 4 options written by the real writer, and thousands of mutated/garbage texts read by the real reader, are judged by TLC. Bounded-exhaustive plus seeded sampling, not a proof for all texts.",
     note="Trusted: the harness lexer (lines end at \\n, \\r\\n or \\r; Unicode-whitespace separated tokens; Python int() decides integers; first non-blank character c/p classifies a line), the path renderer (self-checked: lex(render(path)) = path), TLC. Reading choices: any 4-token line starting with p whose last two tokens are integers >= 0 is a problem line (lenient acceptance allowed, refusal always allowed); blank lines in writer output tolerated; cnfshuffle -i is not exercised.",
     ref="DESIGN.md §4 C06"),
+ "C09": dict(
+    technique="signed-renaming semantics of Shuffle's three arguments in TLA+ (Shuffle.tla): Apply, validity, outcome rule; preservation/invertibility theorem and the witness-search lemma model-checked by TLC (ShuffleMC); real Shuffle / cnfshuffle / '-T shuffle' outputs judged by TLC against the witness recorded by the CNFGEN_VERIF hook, with an exhaustive TLC witness search when the hook is absent or rejected (JudgeShuffle.tla)",
+    text="TLC proves for all CNFs with <= 3 variables and <= 3 clauses of width <= 2 and every valid (flips, variable permutation, clause permutation) that the documented Apply preserves the number of variables and clauses, the multiset of clause widths and the number of models and is invertible, and proves the lemma behind the judge's witness search on all 59,939 formula pairs with <= 2 variables/clauses. The real Shuffle is run on tiny formulas x all 27 argument shapes, every valid explicit triple (N, M <= 3), every short integer sequence as an explicit argument, a catalogue of invalid and wrongly typed arguments, family outputs and random CNFs up to 40 variables / 150 clauses x all 8 switch combinations x many seeds, through the library, cnfshuffle (in-process and subprocess) and cnfgen -T shuffle; TLC decides for every record that the outcome is allowed and that G = Apply(F, witness) with fixed/explicit components used exactly as given.",
+    note="Trusted: clause projection, the harness DIMACS writer and lexer, TLC, and (for formulas above 5 variables / 6 clauses with random flips or permutation) the witness recorded by the hook; the witness is validated and must reproduce G exactly, so a wrong hook can cause a failure, never a false pass; without it only the implied invariants are checked for such formulas. Clauses compared as multisets of literals, positions exactly.",
+    ref="DESIGN.md §4 C09"),
  "C10": dict(
     technique="TLA+ store machine (Store.tla: Insert / NewGroup / Raise) model-checked by TLC; event logs recorded by wrappers around the real store methods are replayed through the same actions and judged by TLC (trace validation, JudgeStore.tla), with the documented variable counts taken from Families.tla / Transform.tla",
     text="TLC shows that the disciplined store keeps InRange, Monotone and Fresh and that unchecked insertions can break them (so the property is about callers). For every family in both formula classes at realistic sizes, every transformation and random chains of two, and cnfgen/pbgen command lines, the per-object event log (aggregated clause insertions with largest variable and bad-literal count, group creations with first id and length, explicit raises) is validated step by step: counter is a legal successor, every new group is contiguous and above every identifier mentioned so far; at the end literals are non-zero integers within the declared count and the count equals the documented one.",
@@ -64,6 +69,11 @@ CHECKS = {
     text="TLC explores every reachable state of the implementation-shaped graph machine (vertex counts 0..3/4, all arguments incl. invalid) with invariant ViewsAgree and the no-side-effect action property; every behaviour of depth 2 (3 thorough) and thousands of deeper random walks are replayed into Graph/DirectedGraph/BipartiteGraph, comparing all views and networkx conversions with TLC's expected abstract views after each step.",
     note="Trusted: the view accessors used by the replay harness, TLC. Bounded vertex counts and history depth.",
     ref="DESIGN.md §4 C16"),
+ "C17": dict(
+    technique="LibCall table in TLA+ (CliTable.tla: sub-command + options -> library generator and arguments, transformations, named graphs, output options) enumerated by TLC (spec -> code test generation); each command line is run through cnfgen / pbgen / kthlist2pebbling and the library call TLC names is run separately; TLC compares class, variables, names and clause multisets (JudgePair.tla strict mode)",
+    text="TLC exports 651 formula command lines (every formula helper with a documented library generator, every option subset, small parameters, named and planted graphs), 68 transformation invocations and 8 output-option sets with the library call each stands for. Every command is run through cnfgen (and pbgen) with --seed and through the named library generator with the same seed and the graphs loaded from the file the command line saved; transformation chains of length 1-3, output options and kthlist2pebbling vs peb are compared the same way. TLC decides equality of formula class, variable count, names and the multiset of clauses / constraints.",
+    note="Trusted: CLI driver (in-process cli(mode='formula')), name -> callable resolution, mirroring of --plant's random assignment, projection, TLC. Random tseitin charge patterns and the 'N d' random-regular shortcuts are not in the table.",
+    ref="DESIGN.md §4 C17"),
  "C19": dict(
     technique="TLA+ object-pool machine (Provenance.tla: Transform / AddClause / AddEntry) with NoAlias and the header rule model-checked by TLC; snapshots of inputs and arguments recorded around real calls judged by TLC (JudgeProvenance.tla)",
     text="TLC checks on all chains of bounded length that a step changes at most the object it names and that a new object's header is its parent's header plus one entry 'transformation k' with k least unused (also for headers that already contain numbered entries). Every real transformation (15 substitution/lifting/flip/compression kinds and shuffle) alone and in random chains of 2-3 is applied to formulas with names, headers, empty clauses, missing description: the input is snapshotted before the call, after it, and after the result has been mutated (clause, header entries, variable count), and the result header is checked against the rule; every graph, literal list (all builders, both classes, also failing calls), constraint, charges, shift pattern, planted assignments and explicit shuffle arguments are snapshotted before/after.",
